@@ -141,7 +141,7 @@ def gen_files(names):
     return True, out
 
 
-ALL_GENS = ["registry", "ruletable", "ir"]
+ALL_GENS = ["registry", "ruletable", "ir", "suggest"]
 
 
 def coq_make(timeout=1500):
